@@ -71,6 +71,16 @@ def gen_params(r, name, dom):
         p['workload'] = r.sample(pairs, r.randint(2, len(pairs)))
         # AIM(epsilon, delta, prng=...) : the constructor hands its third argument to the base class, whose third parameter is `bounded`
         p['prng'] = r.random() < 0.5
+        # workload weights other than 1 (the selection sensitivity is the largest candidate weight)
+        if r.random() < 0.5:
+            p['weights'] = [r.choice([1.0, 0.5, 2.0, 3.0]) for _ in p['workload']]
+        # a size limit that actually binds: a few times the size of the model over the one-way marginals (in MB), so that the early rounds
+        # may only select marginals that are already covered and heavier ones become admissible as the budget is used up
+        if r.random() < 0.4:
+            p['max_model_size'] = sum(s for _, s in dom) * 8 / 2 ** 20 * r.choice([2.0, 4.0, 8.0])
+        # a call history on one mechanism object: a run on a light workload (one single-attribute query) first, then the run that is audited
+        if r.random() < 0.4:
+            p['first_workload'] = [[r.choice(attrs)]]
     elif name == 'mwem':
         p['rounds'] = r.choice([1, 2, 3])
         p['workload'] = r.sample(pairs, r.randint(2, len(pairs)))
@@ -150,6 +160,24 @@ def directed_adagrid_targets(res, r, seed):
     for targets, split in ((['d'], None), (['d', 'b'], [0.1, 0.1, 0.8])):
         params = {'epsilon': 1.0, 'delta': 1e-6, 'threshold': 5.0, 'targets': targets, 'split_strategy': split}
         one_pair(res, 'adagrid', dom, rows, rows[:-1], params, seed, 'directed')
+
+
+def directed_aim(res, r, seed):
+    """AIM's selection sensitivity is the largest weight among the CURRENT candidates of the CURRENT run: (i) a call history on one
+    mechanism object (a light workload first, then all pairs), (ii) a size limit that binds, so that the candidate set grows from round
+    to round, (iii) unequal workload weights — each on a directed neighbouring pair (one more copy of the most frequent record)"""
+    import itertools
+    dom = DOMS[1]
+    attrs = [a for a, _ in dom]
+    pairs = [list(p) for p in itertools.combinations(attrs, 2)]
+    rows = gen_rows(r, dom, 60)
+    rows2 = neighbour(r, dom, rows, False, True)
+    base = {'epsilon': 1.0, 'delta': 1e-6, 'rounds': 8, 'prng': False}
+    for k, extra in enumerate((
+            {'workload': pairs, 'first_workload': [[attrs[0]]]},
+            {'workload': pairs, 'max_model_size': sum(s for _, s in dom) * 8 / 2 ** 20 * 3.0, 'weights': [3.0, 1.0, 1.0, 2.0, 1.0, 1.0]},
+            {'workload': pairs[:4], 'weights': [0.5, 3.0, 1.0, 2.0], 'first_workload': [pairs[5]]})):
+        one_pair(res, 'aim', dom, rows, rows2, dict(base, **extra), seed * 1000 + 500 + k, 'directed-history' if 'first_workload' in extra else 'directed-size-limit')
 
 
 def adagrid_queries(res, drv, r, seed, tier):
@@ -266,6 +294,7 @@ def run(res, drv, tier, seed):
             one_pair(res, name, dom, rows, rows2, params, seed * 1000 + k, 'directed' if directed else 'random')
     directed_mwem_bounded(res, seed)
     directed_adagrid_targets(res, r, seed)
+    directed_aim(res, rng(seed, 'C05-aim'), seed)
     adagrid_queries(res, drv, r, seed, tier)
     # the region excluded by aim_budget's hypothesis, on the real code
     dom = DOMS[1]
